@@ -147,8 +147,12 @@ def cap_case():
                 ctx.prove(z3.Implies(term_of(lift(k) + 1 < 10), z3.BoolVal("nlog" in probe)), "below-the-cap-the-session-continues")
             else:
                 ctx.reach("non-failure-result")
+                if r != AUTH_SUCCESSFUL:
+                    # inductive invariant of the cap: the counter is never below the number of failed attempts so far, so a
+                    # result that is not a failure (partial success: the session goes on) must not lower it
+                    ctx.prove(lift(cnt) >= lift(k), "a-non-failure-result-never-lowers-the-failure-count")
     return Case("failed-attempt-cap", fn,
-                ["every-failure-is-counted", "tenth-failure=>disconnect-and-no-further-credentials-evaluated",
+                ["every-failure-is-counted", "a-non-failure-result-never-lowers-the-failure-count", "tenth-failure=>disconnect-and-no-further-credentials-evaluated",
                  "below-the-cap-the-session-continues", "non-failure-result"],
                 {"failed attempts so far": "0..2^31", "methods": ["none", "password", "publickey", "bogus-method", "keyboard-interactive answers"]})
 
